@@ -112,9 +112,12 @@ Changes(s, e) == s.dur[e.obj].st # e.st \/ s.dur[e.obj].natt # e.natt   \* W tha
 C01_BlockOrder(s, e) == (IsP(e) /\ (Running(s) \/ Resumed(s)) /\ D(s, e.obj).b >= 1) =>
     /\ \A i \in 1..(D(s, e.obj).b - 1) : s.dur[ScopeName(i)].st = CO
     /\ Running(s) => \A x \in Infl(s) : D(s, x).b \in {0, D(s, e.obj).b}
-C01_ActionOrder(s, e) == (IsP(e) /\ Running(s) /\ D(s, e.obj).k = "act") =>
-    LET d == D(s, e.obj) IN
-    /\ d.a > 1 => s.lastOut[ActName(d.b, d.s, d.a - 1)] = "ok"
+\* (also in a process that resumes the plan: there the previous action may have succeeded before the crash)
+C01_ActionOrder(s, e) == (IsP(e) /\ (Running(s) \/ Resumed(s)) /\ D(s, e.obj).k = "act") =>
+    LET d == D(s, e.obj)
+        prev == ActName(d.b, d.s, d.a - 1) IN
+    /\ d.a > 1 => \/ s.lastOut[prev] = "ok"
+                  \/ s.crashed /\ s.lastOut[prev] = "none" /\ (s.cdur[prev].st = CO \/ s.cdur[prev].last = "ok")
     /\ \A x \in Infl(s) : ~(D(s, x).k = "act" /\ D(s, x).b = d.b /\ D(s, x).s = d.s /\ x # e.obj)
     /\ s.inflN[e.obj] = 0
 C01_PreGate(s, e) == (IsP(e) /\ Running(s) /\ D(s, e.obj).k = "act") =>
@@ -157,7 +160,8 @@ C03_AfterFailedBlock(s, e) ==
           ((\E x \in ToSet(e.snap) : D(s, x.obj).k = "blk" /\ x.st = FA) => SnapOf(e.snap)["p"].st = FA)
 
 (* ---------------- C04: what Wait returns ---------------- *)
-C04_WaitReturns(s, e) == (e.ev = "Hang" /\ Live(s)) => FALSE
+\* (a process that dies while the plan executes never lets Wait return either)
+C04_WaitReturns(s, e) == ((e.ev = "Hang" \/ (e.ev = "ProcDied" /\ s.waited = <<>>)) /\ Live(s)) => FALSE
 C04_Terminal(s, e) == (e.ev = "WaitRet" /\ Live(s)) => (e.ok /\ Terminal(SnapOf(e.snap)["p"].st))
 C04_NothingRunning(s, e) == (e.ev = "WaitRet" /\ Live(s)) => \A x \in ToSet(e.snap) : x.st # RU
 C04_Quiescent(s, e) ==
@@ -324,7 +328,7 @@ C09_OnlyInFlight(s, e) == (IsP(e) /\ s.crashed /\ D(s, e.obj).k = "act") =>
     \/ s.cdur[e.obj].st = RU /\ s.cdur[e.obj].last # "ok"
 
 (* ---------------- C10: recovery converges ---------------- *)
-C10_Terminates(s, e) == (e.ev = "Hang" /\ s.crashed) => FALSE
+C10_Terminates(s, e) == ((e.ev = "Hang" \/ (e.ev = "ProcDied" /\ s.waited = <<>>)) /\ s.crashed) => FALSE
 C10_Terminal(s, e) == (e.ev = "WaitRet" /\ Resumed(s)) => (e.ok /\ Terminal(SnapOf(e.snap)["p"].st))
 C10_NothingRunning(s, e) == (e.ev = "WaitRet" /\ Resumed(s)) => \A x \in ToSet(e.snap) : x.st # RU
 C10_Quiescent(s, e) ==
@@ -439,9 +443,10 @@ ClausesFor(t) ==
     [] t = "Read" -> {"C04_Stable", "C10_Stable", "C11_Untouched", "C11_AgedOut"}
     [] t = "R" -> {"C08_Monotone"}
     [] t = "Hang" -> {"C04_WaitReturns", "C10_Terminates", "C12_NoHang"}
+    [] t = "ProcDied" -> {"C04_WaitReturns", "C10_Terminates", "C12_NoDeath"}
     [] t = "HoldTimeout" -> {"C07_ContKeepsRunning"}
     [] t = "StartRet" -> {"C12_SecondStartRejected", "C12_StaleRejected"}
-    [] t \in {"ProcDied", "Panic"} -> {"C12_NoDeath"}
+    [] t = "Panic" -> {"C12_NoDeath"}
     [] t = "ApiCheck" -> {"C12_StartVerdict"}
     [] OTHER -> {}
 ViolatedFast(s, e) == {c \in ClausesFor(e.ev) : ~Holds(c, s, e)}
